@@ -57,8 +57,8 @@ func oracleDist(lat0, lon0, lat1, lon1, lat2, lon2, radius float64) (float64, fl
 	// local plane around end point 1
 	rad := math.Pi / 180
 	c := math.Cos(lat1 * rad)
-	px, py := (lon0-lon1)*rad*c, (lat0-lat1)*rad
-	bx, by := (lon2-lon1)*rad*c, (lat2-lat1)*rad
+	px, py := wrap180(lon0-lon1)*rad*c, (lat0-lat1)*rad
+	bx, by := wrap180(lon2-lon1)*rad*c, (lat2-lat1)*rad
 	u := 0.0
 	if bx*bx+by*by > 0 {
 		u = (px*bx + py*by) / (bx*bx + by*by)
@@ -73,12 +73,22 @@ func oracleDist(lat0, lon0, lat1, lon1, lat2, lon2, radius float64) (float64, fl
 	return dv, errV
 }
 
+func wrap180(d float64) float64 {
+	for d > 180 {
+		d -= 360
+	}
+	for d <= -180 {
+		d += 360
+	}
+	return d
+}
+
 // destination from (lat, lon) at bearing (deg) and angular distance (rad) on the sphere
 func sphDest(lat, lon, brg, ang float64) (float64, float64) {
 	la, lo, b := lat*math.Pi/180, lon*math.Pi/180, brg*math.Pi/180
 	la2 := math.Asin(math.Sin(la)*math.Cos(ang) + math.Cos(la)*math.Sin(ang)*math.Cos(b))
 	lo2 := lo + math.Atan2(math.Sin(b)*math.Sin(ang)*math.Cos(la), math.Cos(ang)-math.Sin(la)*math.Sin(la2))
-	return la2 * 180 / math.Pi, lo2 * 180 / math.Pi
+	return la2 * 180 / math.Pi, wrap180(lo2 * 180 / math.Pi)
 }
 
 type c17Input struct {
@@ -125,6 +135,10 @@ func addC17Case(ctx *Ctx, in c17Input) {
 func genLine(r *Rng) (lat1, lon1, lat2, lon2, length, brg float64) {
 	lat1 = float64(r.Intn(1700)-850) / 10
 	lon1 = float64(r.Intn(3400)-1700) / 10
+	if r.Chance(0.12) {
+		// on or next to the 180th meridian: the line, or the position relative to it, straddles it
+		lon1 = wrap180(180 + float64(r.Intn(2001)-1000)/1e6)
+	}
 	length = Pick(r, []float64{1, 5, 10, 20, 50, 200, 1000}) * (0.5 + float64(r.Intn(100))/100)
 	brg = float64(r.Intn(3600)) / 10
 	lat2, lon2 = sphDest(lat1, lon1, brg, length/6378137)
@@ -259,11 +273,15 @@ func runC18(ctx *Ctx) error {
 	}
 	for i := 0; i < ctx.N(1500, 30000); i++ {
 		lat1, lon1, lat2, lon2, length, brg := genLine(r)
-		if math.Abs(lon1) > 170 {
-			continue
+		if r.Chance(0.3) {
+			// long lines away from the equator, any bearing
+			lat1 = Pick(r, []float64{-1, 1}) * (35 + float64(r.Intn(500))/10)
+			length = 200 + float64(r.Intn(800))
+			lat2, lon2 = sphDest(lat1, lon1, brg, length/6378137)
 		}
 		along := (float64(r.Intn(200))/100 - 0.5) * length
-		side := float64(r.Intn(3000)-1500) / 10
+		// from centimetres to hundreds of metres off the line
+		side := Pick(r, []float64{0.05, 0.5, 3, 30, 150, 300}) * (float64(r.Intn(2001)-1000) / 1000)
 		mlat, mlon := sphDest(lat1, lon1, brg, along/6378137)
 		plat, plon := sphDest(mlat, mlon, brg+90, side/6378137)
 		addC18Case(ctx, c18Input{Kind: "line", Lat1: lat1, Lon1: lon1, Lat2: lat2, Lon2: lon2, Lat0: plat, Lon0: plon})
@@ -280,7 +298,26 @@ type c19Input struct {
 	Lat0, Lon0, Lat, Lon                                        float64
 }
 
+// sincos45: the pinned geodesic dependency evaluates sin/cos of an angle given in degrees wrongly
+// when the angle is exactly 45 + 180k (or -45 - 180k) degrees (known finding D24); a case whose
+// coordinates hand it such an angle belongs to that finding's class.
+func sincos45(degs ...float64) bool {
+	for _, d := range degs {
+		a := math.Abs(d)
+		if a >= 45 && math.Mod(a-45, 180) == 0 {
+			return true
+		}
+	}
+	return false
+}
+
 func addC19Case(ctx *Ctx, in c19Input) {
+	k45 := false
+	if in.Kind == "projection" {
+		k45 = sincos45(in.Lat0, in.Lat, wrap180(in.Lon-in.Lon0))
+	} else {
+		k45 = sincos45(in.Lat1a, in.Lat2a, in.Lat1b, in.Lat2b, wrap180(in.Lon2a-in.Lon1a), wrap180(in.Lon2b-in.Lon1b), wrap180(in.Lon1b-in.Lon1a))
+	}
 	g := geo.NewGnomonic(geodesic.WGS84)
 	checks := map[string]bool{}
 	detail := map[string]any{}
@@ -338,8 +375,8 @@ func addC19Case(ctx *Ctx, in c19Input) {
 	}
 	b, _ := json.Marshal(in)
 	detail["checks"] = checks
-	ctx.Add(Case{Coq: fmt.Sprintf("(mkCase %s %s %s %s %s %s %s)", CoqBool(sa1), CoqBool(sa2), CoqBool(sb1), CoqBool(sb2), CoqBool(errB), CoqNat(expect), zlist(xs)),
-		Input: in, Obs: detail, Key: string(b), Tags: []string{"kind:" + in.Kind, fmt.Sprintf("expect:%d", expect)}})
+	ctx.Add(Case{Coq: fmt.Sprintf("(mkCase %s %s %s %s %s %s %s %s)", CoqBool(sa1), CoqBool(sa2), CoqBool(sb1), CoqBool(sb2), CoqBool(errB), CoqNat(expect), zlist(xs), CoqBool(k45)),
+		Input: in, Obs: detail, Key: string(b), Tags: []string{"kind:" + in.Kind, fmt.Sprintf("expect:%d", expect), fmt.Sprintf("sincos45:%v", k45)}})
 }
 
 func runC19(ctx *Ctx) error {
@@ -370,17 +407,31 @@ func runC19(ctx *Ctx) error {
 		xlon := float64(r.Intn(2400)-1200) / 10
 		la := Pick(r, []float64{10, 200, 5000, 100000, 1e6}) * (0.5 + float64(r.Intn(100))/100)
 		lb := Pick(r, []float64{10, 200, 5000, 100000, 1e6}) * (0.5 + float64(r.Intn(100))/100)
-		brA := float64(r.Intn(1600)+100) / 10 // 10..170: keeps azimuths away from 0/180
+		brA := float64(r.Intn(1600)+100)/10 + 0.0137 // 10..170: keeps azimuths away from 0/180 (and off exact multiples of 45, see sincos45)
 		brB := brA + float64(r.Intn(1300)+250)/10
 		if math.Mod(brB, 180) < 10 || math.Mod(brB, 180) > 170 {
 			continue
 		}
 		fa, fb := 0.2+float64(r.Intn(60))/100, 0.2+float64(r.Intn(60))/100 // crossing at these fractions
 		expect := 1
+		bulge := r.Chance(0.15)
+		if bulge {
+			// a long east-west segment away from the equator bows poleward of both its end points;
+			// a short segment crosses it there, lying wholly poleward of those end points
+			xlat = Pick(r, []float64{-1, 1}) * (30 + float64(r.Intn(400))/10)
+			la = (2e5 + float64(r.Intn(800000)))
+			lb = 2000 + float64(r.Intn(60000))
+			brA = 85.0137 + float64(r.Intn(100))/10
+			brB = brA + 60 + float64(r.Intn(600))/10
+			fa = 0.4 + float64(r.Intn(20))/100
+			fb = 0.02 + float64(r.Intn(10))/100
+		}
 		switch r.Intn(3) {
 		case 0:
-			fa = 1.2 + float64(r.Intn(80))/100 // A ends before the crossing
-			expect = 0
+			if !bulge {
+				fa = 1.2 + float64(r.Intn(80))/100 // A ends before the crossing
+				expect = 0
+			}
 		case 1:
 			fb = -0.2 - float64(r.Intn(80))/100 // B starts after the crossing
 			expect = 0
